@@ -57,4 +57,10 @@ META = {
         note="Trusts refdict (own XML structs, own resolver with the parent-application map copied from the library's documentation) and the go/parser extraction of the embedded XML strings and constant names; constant values come from the compiled packages.",
         technique="runtime differential monitor: dictionary lookups vs reference resolver; monotonicity assertions across loads",
     ),
+    "C18": dict(
+        text="Exploration: tens of thousands of generated values per run over a struct family that covers every field shape the property lists, each through Marshal, the hand-built-list comparison and both Unmarshal paths on the real reflection code; sampled over values, fixed over shapes.",
+        design_ref="DESIGN.md section 4, C18",
+        note="The expected AVP list of every struct type is written by hand in the harness (expect methods); comparison uses the abstract-tree mapping of harness/lib.",
+        technique="runtime monitor: marshal/unmarshal inverse oracle and hand-built AVP list comparison over generated struct values",
+    ),
 }
